@@ -9,6 +9,7 @@ package main
 
 import (
 	"fmt"
+	"os"
 	"regexp"
 	"strconv"
 	"strings"
@@ -80,6 +81,9 @@ func (vc *VC) addrLeaves(term string, budget *int) ([]string, bool) {
 	*budget--
 	if *budget < 0 {
 		return nil, false
+	}
+	if vc.allocLog[term] {
+		return []string{term}, true // an address allocated in the logged region
 	}
 	if d, ok := vc.defs[term]; ok {
 		return vc.addrLeaves(d, budget)
@@ -163,6 +167,9 @@ func (vc *VC) inferLoopFrame(log []storeRec, allocs map[string]bool, limit int) 
 		if !ok {
 			bad[st.key] = true
 			continue
+		}
+		if os.Getenv("MQVC_DEBUG") != "" {
+			fmt.Fprintf(os.Stderr, "store %s addr=%s count=%q leaves=%v allocs=%v\n", st.key, st.addr, st.count, leaves, allocs)
 		}
 		for _, lf := range leaves {
 			// strip a constant offset to recognise fresh allocations
